@@ -475,6 +475,21 @@ fn run_table(t: &Table, out: &mut WorkerOut) {
         let i = &w.ops.infix[a];
         format!("{}{}", i.prec, if i.left { "L" } else { "R" })
     };
+    // relative to the conditional operator too: a chain of new operators (and one built-in) is
+    // the whole condition, and belongs to the arm it stands in
+    for x in &news {
+        let k = rel(x, &world);
+        check(format!("a {} b ? c : d", x), format!("{}~?", k), out);
+        check(format!("a {} b {} c ? d : e", x, x), format!("{}~{}~?", k, k), out);
+        check(format!("a ? b {} c : d {} e", x, x), format!("?~{}", k), out);
+        check(format!("a ? b : c {} d {} e ? f : g", x, x), format!("?~{}~{}~?", k, k), out);
+        for y in &ops {
+            let key = format!("{}~{}~?", k, rel(y, &world));
+            check(format!("a {} b {} c ? d : e", x, y), key.clone(), out);
+            check(format!("a {} b {} c ? d : e", y, x), format!("{}~{}~?", rel(y, &world), k), out);
+            check(format!("a {} b {} c {} d ? e : f", x, y, x), format!("{}~{}", k, key), out);
+        }
+    }
     for x in &ops {
         for y in &ops {
             if !news.contains(x) && !news.contains(y) {
@@ -505,7 +520,7 @@ impl Prop for C08 {
             rule: format!(
                 "(a) histories over {} registration operations (new and built-in function names with two tags, new word / built-in / new symbolic prefix operators, an infix word operator at 111 LEFT, 111 RIGHT and 125 LEFT, overrides of '+' and '/' with other precedence / associativity, postfix operators): every history of <= {} operations with every placement of probe batteries (before first use, between registrations, after), and every history of {} operations with 4 placements; each in a fresh process. \
                  A probe battery = {} expressions x up to {} contexts (empty, name bound as context function, as variable, built-in name bound as context function): AST, rendering round trip and value must equal the registry model + reference parser / evaluator instantiated with the same table. \
-                 (b) {} operator tables: one new infix operator at p in {{b-1, b, b+1 : b a built-in level}} + {{1, 2, 3, 10^9-1, 10^9}}, both associativities, and pairs at (p, p+1) / (p, p); every expression `a X b Y c` and `a X b Y c Z d` with a new operator in it over the new operators and one built-in per level. distinct = distinct history / table",
+                 (b) {} operator tables: one new infix operator at p in {{b-1, b, b+1 : b a built-in level}} + {{1, 2, 3, 10^9-1, 10^9}}, both associativities, and pairs at (p, p+1) / (p, p); every expression `a X b Y c` and `a X b Y c Z d` with a new operator in it over the new operators and one built-in per level, and chains of them as the condition and in the arms of a conditional. distinct = distinct history / table",
                 op_alphabet().len(),
                 tier.pick(2, 3),
                 tier.pick(3, 4),
